@@ -154,8 +154,10 @@ def gen(tier, seed, chunk, nch):
                 else:
                     env[o["env"]] = _rand_token(rng).replace(b"\0", b"")
         mode = "A"
-        if rng.random() < 0.15:
-            mode = "V"
+        if rng.random() < 0.2:
+            mode = rng.choice(["V", "V", "W"])
+        if rng.random() < 0.1:
+            d = dict(d, moved=rng.choice(["MOVE", "MOVEA"]))
         case = {"decl": d, "env": env, "argv": argv, "cls": "random", "mode": mode}
         if rng.random() < 0.25:
             # the documented conditions decide also on a parser whose earlier calls were rejected half-way
